@@ -389,6 +389,7 @@ class Program:
         self._impl_cache = {}
         self._src = {}
         self.consts = {}      # tail name -> constant text (simple consts only)
+        self.allocs = {}      # alloc id -> static name
         self.const_fns = {}   # name (impl spans removed) -> Fn for consts/statics/promoteds with a MIR body
 
     # ---- source access (for impl headers)
@@ -463,6 +464,9 @@ def load(path, src_root, crate):
     span_re = re.compile(r'\s*// (?:scope \d+ at |in scope \d+ at |at )?(.*)$')
     while i < n:
         l = lines[i]
+        ma = re.match(r'^(alloc\d+) \(static: ([^,)]+)', l)
+        if ma:
+            prog.allocs[ma.group(1)] = ma.group(2).strip()
         lc = re.sub(r'<impl at .*?:\d+:\d+: \d+:\d+>::', '', l.split(' // ')[0].rstrip()) if l.startswith('const ') else ''
         mc = re.match(r'^const (.*?): ([^=]*) = const (.*);$', lc)
         if mc:
